@@ -173,7 +173,7 @@ func c01(c *Ctx) {
 	c01StuffingReset(c)
 	// what the demuxer delivers stays what was written: nothing in it aliases a buffer that later reads reuse (rule S3 of C16)
 	r.Floor("S3", "borrowed/owned byte-slice source sites", ownership.BorrowTaint(c.P, r), 10)
-	// "exactly one PES per WriteData call": a PES that decodes is delivered whatever its stream id or header says (D1)
+	// "exactly one PES per WriteData call": a PES that decodes is delivered whatever its stream id or header says (D2)
 	demuxrules.New(c.P, r).NoContentFilter()
 	muxstate.AutoPID(c.P, r, muxstate.RuleAutoPID)
 	// "one PAT/PMT pair per table emission describing the configured streams": every emission serialises the live stream list
